@@ -6,13 +6,24 @@
    N1  run_cuckoo never returns RC_fuel on a settled table: the path found by the BFS on a table is
        executed successfully on that same table at the first attempt (the BFS returns a path whose
        buckets are pairwise distinct, because it is a SHORTEST path), so the while loop runs once.
-   N2  cuckoo_insert never returns CI_fuel on a settled table.
-   N3  the insert loop / uprase_gen / rehash / reserve never report EOutOfFuel (nothrow types),
-       short of the explicit escape clause [esc] of Refine.v.
-   M   fuel monotonicity of every fuelled loop (no invariant needed).
-   N4  where an EOutOfFuel of the rebuild path can come from.                                  *)
+       (sections A-G: run_cuckoo_loop_once, run_cuckoo_no_fuel)
+   N2  cuckoo_insert never returns CI_fuel on a settled table (cuckoo_insert_no_fuel).
+   L   N1 and N2 again for normal mode on a table with DEFERRED migration (invariant [wf] of
+       Lazy.v), where the search itself migrates stripes (run_cuckoo_no_fuel_wf,
+       cuckoo_insert_no_fuel_wf).
+   N3  (H, I) the insert loop / uprase_gen / fast_double / rehash / reserve never report
+       EOutOfFuel for nothrow types, short of the explicit escape clause [esc] of Refine.v
+       (insert_loop_no_fuel, uprase_gen_no_fuel, cuckoo_expand_simple_no_fuel, ...).
+   M   fuel monotonicity of run_cuckoo_loop, cuckoo_insert_loop, fast_double_f/expand_simple_f
+       (no invariant needed): a run that did not run out of fuel is the run at every larger fuel.
+   N4  (I, J) for throwing types: an EOutOfFuel of a rebuild is an EOutOfFuel of an automatic
+       expansion of its temporary map (expand_simple_fuel_origin); fuel n can only be exhausted
+       when about n/2 nested doublings fit below the maximum hashpower (fuel_room_all).
+
+   The pathcode is a 16-bit integer: for SLOT_PER_BUCKET <= 8 (cfg_ok) the code of a path of
+   length 5 is below 2 * 8^5 = 2^16 and never wraps (enc_small); N1 relies on it.             *)
 From Coq Require Import NArith ZArith List Bool Lia FMapPositive.
-From LC Require Import gen.HashGen Bits Core Api InvDefs ArrLemmas Stats InsertLemmas Resize Iter Refine.
+From LC Require Import gen.HashGen Bits Core Api InvDefs ArrLemmas Stats InsertLemmas Resize Iter Refine Lazy.
 Import ListNotations.
 Local Open Scope N_scope.
 
@@ -217,7 +228,6 @@ Qed.
 Section BFS.
 Variable t : table.
 Variable hp i1 i2 : N.
-Hypothesis Hm : all_migrated t.
 
 Notation a := (cur t).
 
@@ -330,35 +340,40 @@ Definition bfs_answer (r : b_slot) : Prop :=
     bget a (qbucket r) s = None /\
     forall m, (m < length slots)%nat -> ~ reach m (qbucket r).
 
-Lemma bfs_loop_answer mode : forall fuel q t' r,
-  Forall node_ok q -> covered q -> (exists d, layered d q) ->
-  slot_search_loop c hash mode t hp q fuel = (t', Some r) -> bfs_answer r.
+(* the dequeued bucket has an empty slot *)
+Lemma answer_of_scan d x q' r0 ch :
+  node_ok x -> covered (x :: q') -> layered d (x :: q') ->
+  slot_search_scan c t hp x (qpathcode x mod spb c) 0 (N.to_nat (spb c)) [] = (Some r0, ch) ->
+  bfs_answer r0 /\ qbucket r0 = qbucket x /\ qdepth r0 = qdepth x.
 Proof.
-  induction fuel as [|f IH]; intros q t' r Hn Hcov [d Hlay] E; [discriminate|].
-  destruct q as [|x q']; [discriminate|].
-  rewrite (slot_search_loop_step c hash mode t hp x q' f Hm) in E.
-  inversion Hn as [|x0 q0 Hx Hn']; subst x0 q0.
-  destruct (slot_search_scan c t hp x (qpathcode x mod spb c) 0 (N.to_nat (spb c)) [])
-    as [[r0|] ch] eqn:Es.
-  - injection E as _ <-.
-    destruct (scan_found _ _ _ _ _ _ _ _ _ Es) as [s [Hs [He ->]]].
-    destruct Hx as [Hd4 [code [slots [Hcode [Hf [Hl [Hp Hw]]]]]]].
-    split; [exact Hd4|]. exists code, slots, s. cbn [qdepth qpathcode qbucket].
-    split; [exact Hcode|]. split; [exact Hf|]. split; [exact Hs|]. split; [exact Hl|].
-    split.
-    { rewrite Hp, <- enc_snoc. apply wrap_small.
-      apply enc_small; [exact Hcode| |rewrite app_length; cbn [length]; lia].
-      apply Forall_app. split; [exact Hf|]. constructor; [exact Hs|constructor]. }
-    split; [exact Hw|]. split; [exact He|].
-    intros m Hlt Hr.
-    destruct (Hcov m (qbucket x) Hr) as [Hfull|[y [suf [Hy [_ [_ Hlen]]]]]]; [lia| |].
-    + apply (Hfull s Hs). exact He.
-    + assert (Hle := layered_head d x q' y Hlay Hy). lia.
-  - apply (IH (q' ++ ch) t' r).
-    + apply Forall_app. split; [exact Hn'|]. apply (children_ok x ch Hx Es).
-    + apply (covered_step x q' ch Hcov Es).
-    + apply (layered_step d x q' ch Hlay). apply (children_depth x ch Es).
-    + exact E.
+  intros Hx Hcov Hlay Es.
+  destruct (scan_found _ _ _ _ _ _ _ _ _ Es) as [s [Hs [He ->]]].
+  split; [|split; reflexivity].
+  destruct Hx as [Hd4 [code [slots [Hcode [Hf [Hl [Hp Hw]]]]]]].
+  split; [exact Hd4|]. exists code, slots, s. cbn [qdepth qpathcode qbucket].
+  split; [exact Hcode|]. split; [exact Hf|]. split; [exact Hs|]. split; [exact Hl|].
+  split.
+  { rewrite Hp, <- enc_snoc. apply wrap_small.
+    apply enc_small; [exact Hcode| |rewrite app_length; cbn [length]; lia].
+    apply Forall_app. split; [exact Hf|]. constructor; [exact Hs|constructor]. }
+  split; [exact Hw|]. split; [exact He|].
+  intros m Hlt Hr.
+  destruct (Hcov m (qbucket x) Hr) as [Hfull|[y [suf [Hy [_ [_ Hlen]]]]]]; [lia| |].
+  - apply (Hfull s Hs). exact He.
+  - assert (Hle := layered_head d x q' y Hlay Hy). lia.
+Qed.
+
+(* the dequeued bucket is full *)
+Lemma inv_step d x q' ch :
+  Forall node_ok (x :: q') -> covered (x :: q') -> layered d (x :: q') ->
+  slot_search_scan c t hp x (qpathcode x mod spb c) 0 (N.to_nat (spb c)) [] = (None, ch) ->
+  Forall node_ok (q' ++ ch) /\ covered (q' ++ ch) /\ exists d', layered d' (q' ++ ch).
+Proof.
+  intros Hn Hcov Hlay Es. inversion Hn as [|x0 q0 Hx Hn']; subst x0 q0.
+  split; [|split].
+  - apply Forall_app. split; [exact Hn'|]. apply (children_ok x ch Hx Es).
+  - apply (covered_step x q' ch Hcov Es).
+  - apply (layered_step d x q' ch Hlay). apply (children_depth x ch Es).
 Qed.
 
 Lemma bfs_init_inv :
@@ -376,6 +391,24 @@ Proof.
       split; [right; left; reflexivity|]. split; [exact Hf|]. split; [exact Hw|]. cbn [qdepth]. lia.
   - exists 0, (bfs_init i1 i2), []. split; [rewrite app_nil_r; reflexivity|].
     split; [|constructor]. constructor; [reflexivity|constructor; [reflexivity|constructor]].
+Qed.
+
+(* the table does not change during the search when nothing is left to migrate *)
+Hypothesis Hm : all_migrated t.
+
+Lemma bfs_loop_answer mode : forall fuel q t' r,
+  Forall node_ok q -> covered q -> (exists d, layered d q) ->
+  slot_search_loop c hash mode t hp q fuel = (t', Some r) -> bfs_answer r.
+Proof.
+  induction fuel as [|f IH]; intros q t' r Hn Hcov [d Hlay] E; [discriminate|].
+  destruct q as [|x q']; [discriminate|].
+  rewrite (slot_search_loop_step c hash mode t hp x q' f Hm) in E.
+  destruct (slot_search_scan c t hp x (qpathcode x mod spb c) 0 (N.to_nat (spb c)) [])
+    as [[r0|] ch] eqn:Es.
+  - injection E as _ <-. inversion Hn as [|x0 q0 Hx Hn']; subst x0 q0.
+    exact (proj1 (answer_of_scan d x q' r0 ch Hx Hcov Hlay Es)).
+  - destruct (inv_step d x q' ch Hn Hcov Hlay Es) as [H1 [H2 H3]].
+    exact (IH (q' ++ ch) t' r H1 H2 H3 E).
 Qed.
 
 Theorem slot_search_answer mode t' r :
@@ -404,32 +437,38 @@ Fixpoint trail (a : barray) (hp b : N) (slots : list N) : list cuckoo_record :=
     end
   end.
 
-Lemma cps_loop_trail mode hp : forall slots t prev i acc, all_migrated t -> 1 <= i ->
+(* locking bucket b changes nothing (its stripe is migrated, or the table is in locked mode) *)
+Definition lock_free (mode : bool) (t : table) (b : N) : Prop := lock_one c hash mode t b = t.
+
+Lemma cps_loop_trail mode hp : forall slots t prev i acc, 1 <= i ->
+  Forall (fun r => lock_free mode t (crbucket r))
+         (trail (cur t) hp (alt_index hp (crpartial prev) (crbucket prev)) slots) ->
   cuckoopath_search_loop c hash mode t hp prev slots i acc =
   (t, rev (trail (cur t) hp (alt_index hp (crpartial prev) (crbucket prev)) slots) ++ acc,
    i + N.of_nat (length (trail (cur t) hp (alt_index hp (crpartial prev) (crbucket prev)) slots)) - 1).
 Proof.
-  induction slots as [|s rest IH]; intros t prev i acc Hm Hi.
+  induction slots as [|s rest IH]; intros t prev i acc Hi HF.
   - cbn [cuckoopath_search_loop trail rev app length]. f_equal. lia.
-  - cbn [cuckoopath_search_loop trail]. rewrite (lock_one_settled c hash mode t _ Hm).
-    set (b := alt_index hp (crpartial prev) (crbucket prev)).
-    destruct (bget (cur t) b s) as [e|].
-    + rewrite (IH t _ (i + 1) _ Hm) by lia. cbn [crpartial crbucket rev length].
+  - cbn [cuckoopath_search_loop trail] in HF |- *.
+    set (b := alt_index hp (crpartial prev) (crbucket prev)) in *.
+    destruct (bget (cur t) b s) as [e|] eqn:Eb.
+    + inversion HF as [|r0 l0 Hb HF']; subst r0 l0. cbn [crbucket] in Hb. unfold lock_free in Hb.
+      rewrite Hb, Eb.
+      rewrite (IH t _ (i + 1) _) by (try lia; exact HF'). cbn [crpartial crbucket rev length].
       rewrite <- app_assoc. cbn [app]. f_equal. lia.
-    + cbn [rev app length]. f_equal. lia.
+    + inversion HF as [|r0 l0 Hb HF']; subst r0 l0. cbn [crbucket] in Hb. unfold lock_free in Hb.
+      rewrite Hb, Eb. cbn [rev app length]. f_equal. lia.
 Qed.
 
 Lemma cuckoopath_search_trail mode t hp i1 i2 t' x code slots s :
-  all_migrated t ->
   slot_search c hash mode t hp i1 i2 = (t', Some x) ->
   Forall lt_spb slots -> s < spb c -> length slots = N.to_nat (qdepth x) ->
   qpathcode x = enc code (slots ++ [s]) ->
-  let T := trail (cur t) hp (root i1 i2 code) (slots ++ [s]) in
-  cuckoopath_search c hash mode t hp i1 i2 = (t, Some (T, N.of_nat (length T) - 1)).
+  let T := trail (cur t') hp (root i1 i2 code) (slots ++ [s]) in
+  Forall (fun r => lock_free mode t' (crbucket r)) T ->
+  cuckoopath_search c hash mode t hp i1 i2 = (t', Some (T, N.of_nat (length T) - 1)).
 Proof.
-  intros Hm Es Hf Hs Hl Hp T. subst T. unfold cuckoopath_search.
-  destruct (slot_search_settled c hash mode t hp i1 i2 Hm) as [r Es']. rewrite Es' in Es.
-  injection Es as <- ->. rewrite Es'.
+  intros Es Hf Hs Hl Hp T HF. subst T. unfold cuckoopath_search. rewrite Es.
   assert (Hf' : Forall lt_spb (slots ++ [s])).
   { apply Forall_app. split; [exact Hf|]. constructor; [exact Hs|constructor]. }
   replace (S (N.to_nat (qdepth x))) with (length (slots ++ [s]))
@@ -437,11 +476,14 @@ Proof.
   rewrite Hp, (decode_enc code (slots ++ [s]) [] Hf'), app_nil_r.
   destruct (slots ++ [s]) as [|s0 rest] eqn:El.
   { destruct slots; discriminate. }
-  fold (root i1 i2 code). rewrite (lock_one_settled c hash mode t _ Hm).
-  cbn [trail]. destruct (bget (cur t) (root i1 i2 code) s0) as [e|].
-  - rewrite (cps_loop_trail mode hp rest t _ 1 _ Hm) by lia. cbn [crpartial crbucket].
+  fold (root i1 i2 code). cbn [trail] in HF |- *.
+  destruct (bget (cur t') (root i1 i2 code) s0) as [e|] eqn:Eb.
+  - inversion HF as [|r0 l0 Hb HF']; subst r0 l0. cbn [crbucket] in Hb. unfold lock_free in Hb.
+    rewrite Hb, Eb.
+    rewrite (cps_loop_trail mode hp rest t' _ 1 _) by (try lia; exact HF'). cbn [crpartial crbucket].
     rewrite rev_app_distr, rev_involutive. cbn [rev app length]. do 3 f_equal. lia.
-  - reflexivity.
+  - inversion HF as [|r0 l0 Hb HF']; subst r0 l0. cbn [crbucket] in Hb. unfold lock_free in Hb.
+    rewrite Hb, Eb. reflexivity.
 Qed.
 
 Definition dflt_rec : cuckoo_record := {| crbucket := 0; crslot := 0; crhash := 0; crpartial := 0 |}.
@@ -477,6 +519,49 @@ Qed.
 
 (* ================================================================== F. executing the path *)
 
+(* taking the lock of bucket b is a no-op *)
+Definition quiet (mode : bool) (t : table) (b : N) : Prop :=
+  mode = true \/ mig (lock_at t (lockind c b)) = true.
+
+Lemma rehash_lock_id lazy t l : mig (lock_at t l) = true -> rehash_lock c hash lazy t l = t.
+Proof. intro H. unfold rehash_lock. rewrite H. reflexivity. Qed.
+
+Ltac rl_id :=
+  repeat match goal with
+  | H : mig (lock_at ?t ?l) = true |- context [rehash_lock c hash ?z ?t ?l] =>
+      rewrite (rehash_lock_id z t l H)
+  end.
+
+Lemma lock_one_quiet mode t b : quiet mode t b -> lock_one c hash mode t b = t.
+Proof.
+  intros [->|H]; [reflexivity|]. unfold lock_one. destruct mode; [reflexivity|].
+  apply rehash_lock_id. exact H.
+Qed.
+
+Lemma lock_two_quiet mode t b1 b2 :
+  quiet mode t b1 -> quiet mode t b2 -> lock_two c hash mode t b1 b2 = t.
+Proof.
+  intros [->|H1] H2; [reflexivity|]. destruct H2 as [->|H2]; [reflexivity|].
+  unfold lock_two. destruct mode; [reflexivity|].
+  destruct (lockind c b2 <? lockind c b1); rl_id; reflexivity.
+Qed.
+
+Lemma lock_three_quiet mode t b1 b2 b3 :
+  quiet mode t b1 -> quiet mode t b2 -> quiet mode t b3 -> lock_three c hash mode t b1 b2 b3 = t.
+Proof.
+  intros [->|H1] H2 H3; [reflexivity|]. destruct H2 as [->|H2]; [reflexivity|].
+  destruct H3 as [->|H3]; [reflexivity|].
+  unfold lock_three. destruct mode; [reflexivity|].
+  destruct (lockind c b3 <? lockind c b2);
+    [destruct (lockind c b2 <? lockind c b1)|destruct (lockind c b3 <? lockind c b1)];
+    [destruct (lockind c b3 <? lockind c b2)|destruct (lockind c b3 <? lockind c b1)
+    |destruct (lockind c b2 <? lockind c b3)|destruct (lockind c b2 <? lockind c b1)];
+    rl_id; reflexivity.
+Qed.
+
+Lemma quiet_settled mode t b : all_migrated t -> quiet mode t b.
+Proof. intro H. right. apply lock_at_mig. exact H. Qed.
+
 Section MoveOk.
 Variable mode : bool.
 Variable path : list cuckoo_record.
@@ -491,30 +576,63 @@ Definition path_ready (a : barray) (depth : nat) : Prop :=
      exists e, bget a (crbucket (P j)) (crslot (P j)) = Some e /\ hash (ekey e) = crhash (P j)) /\
   (forall j j', (j < j' <= depth)%nat -> crbucket (P j) <> crbucket (P j')).
 
-Lemma move_loop_ok : forall depth t, all_migrated t -> path_ready (cur t) depth ->
-  snd (cuckoopath_move_loop c hash mode t path i1 i2 depth) = true.
+(* every lock the move takes is a no-op *)
+Definition path_quiet (t : table) (depth : nat) : Prop :=
+  quiet mode t i1 /\ quiet mode t i2 /\ forall j, (j <= depth)%nat -> quiet mode t (crbucket (P j)).
+
+Lemma move_loop_step_quiet t d' :
+  path_quiet t (S d') ->
+  cuckoopath_move_loop c hash mode t path i1 i2 (S d') =
+  let from := P d' in
+  let to := P (S d') in
+  match bget (cur t) (crbucket to) (crslot to), bget (cur t) (crbucket from) (crslot from) with
+  | Some _, _ => (t, false)
+  | None, None => (t, false)
+  | None, Some e =>
+    if negb (hash (ekey e) =? crhash from) then (t, false)
+    else cuckoopath_move_loop c hash mode
+           (set_cur t (bset (bset (cur t) (crbucket to) (crslot to)
+                                  (Some {| ekey := ekey e; eval := eval e; epart := epart e; ehusk := false |}))
+                            (crbucket from) (crslot from) None))
+           path i1 i2 d'
+  end.
 Proof.
-  induction depth as [|d' IH]; intros t Hm [Hto [Hocc Hdist]]; [reflexivity|].
-  rewrite (move_loop_step c hash mode t path i1 i2 d' Hm). cbv zeta.
-  rewrite Hto. destruct (Hocc d') as [e [He Hh]]; [lia|]. rewrite He, Hh, N.eqb_refl. cbn [negb].
-  apply IH; [apply all_migrated_set_cur; exact Hm|]. cbn [set_cur cur].
-  split; [apply bget_bset_eq|]. split.
-  - intros j Hj. destruct (Hocc j) as [ej [Hej Hhj]]; [lia|]. exists ej. split; [|exact Hhj].
-    rewrite bget_bset_other by (left; intro E; apply (Hdist j d'); [lia|symmetry; exact E]).
-    rewrite bget_bset_other by (left; intro E; apply (Hdist j (S d')); [lia|symmetry; exact E]).
-    exact Hej.
-  - intros j j' Hj. apply Hdist. lia.
+  intros [Q1 [Q2 Q]]. cbn [cuckoopath_move_loop].
+  destruct (Nat.eqb (S d') 1).
+  - rewrite (lock_three_quiet mode t _ _ _ Q1 Q2 (Q (S d') (le_n _))). reflexivity.
+  - rewrite (lock_two_quiet mode t _ _ (Q d' (le_S _ _ (le_n _))) (Q (S d') (le_n _))). reflexivity.
 Qed.
 
-Lemma move_ok t depth :
-  all_migrated t -> path_ready (cur t) (N.to_nat depth) ->
+Lemma move_loop_ok : forall depth t, path_quiet t depth -> path_ready (cur t) depth ->
+  snd (cuckoopath_move_loop c hash mode t path i1 i2 depth) = true.
+Proof.
+  induction depth as [|d' IH]; intros t HQ [Hto [Hocc Hdist]]; [reflexivity|].
+  rewrite (move_loop_step_quiet t d' HQ). cbv zeta.
+  rewrite Hto. destruct (Hocc d') as [e [He Hh]]; [lia|]. rewrite He, Hh, N.eqb_refl. cbn [negb].
+  apply IH.
+  - destruct HQ as [Q1 [Q2 Q]]. split; [exact Q1|]. split; [exact Q2|]. intros j Hj. apply (Q j). lia.
+  - cbn [set_cur cur]. split; [apply bget_bset_eq|]. split.
+    + intros j Hj. destruct (Hocc j) as [ej [Hej Hhj]]; [lia|]. exists ej. split; [|exact Hhj].
+      rewrite bget_bset_other by (left; intro E; apply (Hdist j d'); [lia|symmetry; exact E]).
+      rewrite bget_bset_other by (left; intro E; apply (Hdist j (S d')); [lia|symmetry; exact E]).
+      exact Hej.
+    + intros j j' Hj. apply Hdist. lia.
+Qed.
+
+Lemma move_ok_pos t depth :
+  depth <> 0 -> path_quiet t (N.to_nat depth) -> path_ready (cur t) (N.to_nat depth) ->
   snd (cuckoopath_move c hash mode t path depth i1 i2) = true.
 Proof.
-  intros Hm Hr. destruct (N.eq_dec depth 0) as [->|Nz].
-  - rewrite (cuckoopath_move_depth0 c hash mode t path i1 i2 Hm). cbn [snd].
-    destruct Hr as [Hto _]. change (N.to_nat 0) with 0%nat in Hto. change (N.of_nat 0) with 0 in Hto.
-    apply negb_true_iff. apply occupied_false. exact Hto.
-  - unfold cuckoopath_move. apply N.eqb_neq in Nz. rewrite Nz. apply move_loop_ok; assumption.
+  intros Nz HQ Hr. unfold cuckoopath_move. apply N.eqb_neq in Nz. rewrite Nz.
+  apply move_loop_ok; assumption.
+Qed.
+
+Lemma move_ok_zero t :
+  bget (cur (lock_two c hash mode t i1 i2)) (crbucket (P 0)) (crslot (P 0)) = None ->
+  snd (cuckoopath_move c hash mode t path 0 i1 i2) = true.
+Proof.
+  intro H. unfold cuckoopath_move. change (0 =? 0) with true. cbv iota zeta. cbn [snd].
+  apply negb_true_iff. apply occupied_false. exact H.
 Qed.
 
 End MoveOk.
@@ -533,6 +651,62 @@ Proof.
   - rewrite <- (firstn_skipn n' l) in H. apply Forall_app in H. exact (proj2 H).
 Qed.
 
+Lemma Forall_of_nth {A} (Q : A -> Prop) (d : A) : forall l,
+  (forall j, (j < length l)%nat -> Q (nth j l d)) -> Forall Q l.
+Proof.
+  induction l as [|x l IH]; intro H; constructor.
+  - apply (H 0%nat). cbn [length]. lia.
+  - apply IH. intros j Hj. apply (H (S j)). cbn [length]. lia.
+Qed.
+
+(* the answer of the BFS, read as a path: it is ready to be executed, and each of its buckets
+   either holds an element or is the bucket the BFS stopped at *)
+Lemma answer_path_ready t hp i1 i2 r :
+  tags_ok (cur t) -> bfs_answer t hp i1 i2 r ->
+  exists code slots s,
+    Forall lt_spb slots /\ s < spb c /\ length slots = N.to_nat (qdepth r) /\
+    qpathcode r = enc code (slots ++ [s]) /\
+    let T := trail (cur t) hp (root i1 i2 code) (slots ++ [s]) in
+    length T = S (length slots) /\
+    path_ready T (cur t) (length slots) /\
+    Forall (fun rc => (exists s' e, bget (cur t) (crbucket rc) s' = Some e) \/ crbucket rc = qbucket r) T.
+Proof.
+  intros Htag [Hd4 [code [slots [s [Hcode [Hf [Hs [Hl [Hp [Hw [He Hmin]]]]]]]]]]].
+  exists code, slots, s. split; [exact Hf|]. split; [exact Hs|]. split; [exact Hl|]. split; [exact Hp|].
+  destruct (trail_walk (cur t) hp Htag slots (root i1 i2 code) (qbucket r) s Hw He)
+    as [HL [Hocc [HB HS]]]. cbv zeta in HL, Hocc, HB, HS |- *.
+  set (T := trail (cur t) hp (root i1 i2 code) (slots ++ [s])) in *.
+  set (n := length slots) in *.
+  split; [exact HL|].
+  assert (Hnth : forall j, nth_rec T (N.of_nat j) = nth j T dflt_rec).
+  { intro j. unfold nth_rec. rewrite Nat2N.id. reflexivity. }
+  (* the bucket of every position is the end of the corresponding prefix of the walk *)
+  assert (Hpre : forall j, (j <= n)%nat ->
+            walk (cur t) hp (root i1 i2 code) (firstn j slots) = Some (crbucket (nth j T dflt_rec))).
+  { intros j Hj. destruct (Nat.eq_dec j n) as [->|Hne].
+    - rewrite HB. unfold n. rewrite firstn_all. exact Hw.
+    - destruct (Hocc j) as [Bj [e [G1 [_ [G3 _]]]]]; [lia|]. rewrite G3. exact G1. }
+  split.
+  - split; [|split].
+    + rewrite Hnth, HB, HS. exact He.
+    + intros j Hj. rewrite Hnth. destruct (Hocc j Hj) as [Bj [e [_ [G2 [G3 [G4 G5]]]]]].
+      exists e. rewrite G3, G4, G5. split; [exact G2|reflexivity].
+    + intros j j' Hj. rewrite !Hnth. intro Eb.
+      assert (Hw1 := Hpre j ltac:(lia)). assert (Hw2 := Hpre j' ltac:(lia)).
+      assert (Hw3 : walk (cur t) hp (crbucket (nth j' T dflt_rec)) (skipn j' slots) = Some (qbucket r)).
+      { assert (H := Hw). rewrite <- (firstn_skipn j' slots), walk_app, Hw2 in H. exact H. }
+      apply (Hmin (j + (n - j'))%nat); [lia|].
+      exists code, (firstn j slots ++ skipn j' slots).
+      split; [exact Hcode|]. split; [apply Forall_firstn_skipn; exact Hf|]. split.
+      * rewrite app_length, firstn_length, skipn_length. fold n. lia.
+      * rewrite walk_app, Hw1, Eb. exact Hw3.
+  - apply (Forall_of_nth _ dflt_rec). intros j Hj. rewrite HL in Hj.
+    destruct (Nat.eq_dec j n) as [->|Hne].
+    + right. exact HB.
+    + left. destruct (Hocc j) as [Bj [e [_ [G2 [G3 _]]]]]; [lia|].
+      exists (nth j slots 0), e. rewrite G3. exact G2.
+Qed.
+
 (* the path found by the search on a table is ready to be executed on that table *)
 Theorem search_path_ready mode t hp i1 i2 t1 path depth :
   all_migrated t -> tags_ok (cur t) ->
@@ -543,36 +717,16 @@ Proof.
   destruct (slot_search_settled c hash mode t hp i1 i2 Hm) as [r Es].
   destruct r as [x|].
   2:{ unfold cuckoopath_search in E. rewrite Es in E. discriminate. }
-  destruct (slot_search_answer t hp i1 i2 Hm mode t x Es)
-    as [Hd4 [code [slots [s [Hcode [Hf [Hs [Hl [Hp [Hw [He Hmin]]]]]]]]]]].
-  assert (Et := cuckoopath_search_trail mode t hp i1 i2 t x code slots s Hm Es Hf Hs Hl Hp).
-  cbv zeta in Et. rewrite Et in E. injection E as <- <- <-. split; [reflexivity|].
-  destruct (trail_walk (cur t) hp Htag slots (root i1 i2 code) (qbucket x) s Hw He)
-    as [HL [Hocc [HB HS]]]. cbv zeta in HL, Hocc, HB, HS.
-  set (T := trail (cur t) hp (root i1 i2 code) (slots ++ [s])) in *.
-  set (n := length slots) in *.
-  replace (N.to_nat (N.of_nat (length T) - 1)) with n by (rewrite HL; lia).
-  assert (Hnth : forall j, nth_rec T (N.of_nat j) = nth j T dflt_rec).
-  { intro j. unfold nth_rec. rewrite Nat2N.id. reflexivity. }
-  (* the bucket of every position is the end of the corresponding prefix of the walk *)
-  assert (Hpre : forall j, (j <= n)%nat ->
-            walk (cur t) hp (root i1 i2 code) (firstn j slots) = Some (crbucket (nth j T dflt_rec))).
-  { intros j Hj. destruct (Nat.eq_dec j n) as [->|Hne].
-    - rewrite HB. unfold n. rewrite firstn_all. exact Hw.
-    - destruct (Hocc j) as [Bj [e [G1 [_ [G3 _]]]]]; [lia|]. rewrite G3. exact G1. }
-  split; [|split].
-  - rewrite Hnth, HB, HS. exact He.
-  - intros j Hj. rewrite Hnth. destruct (Hocc j Hj) as [Bj [e [_ [G2 [G3 [G4 G5]]]]]].
-    exists e. rewrite G3, G4, G5. split; [exact G2|reflexivity].
-  - intros j j' Hj. rewrite !Hnth. intro Eb.
-    assert (Hw1 := Hpre j ltac:(lia)). assert (Hw2 := Hpre j' ltac:(lia)).
-    assert (Hw3 : walk (cur t) hp (crbucket (nth j' T dflt_rec)) (skipn j' slots) = Some (qbucket x)).
-    { assert (H := Hw). rewrite <- (firstn_skipn j' slots), walk_app, Hw2 in H. exact H. }
-    apply (Hmin (j + (n - j'))%nat); [lia|].
-    exists code, (firstn j slots ++ skipn j' slots).
-    split; [exact Hcode|]. split; [apply Forall_firstn_skipn; exact Hf|]. split.
-    + rewrite app_length, firstn_length, skipn_length. fold n. lia.
-    + rewrite walk_app, Hw1, Eb. exact Hw3.
+  assert (Ha := slot_search_answer t hp i1 i2 Hm mode t x Es).
+  destruct (answer_path_ready t hp i1 i2 x Htag Ha)
+    as [code [slots [s [Hf [Hs [Hl [Hp [HL [Hr _]]]]]]]]]. cbv zeta in HL, Hr.
+  assert (Et := cuckoopath_search_trail mode t hp i1 i2 t x code slots s Es Hf Hs Hl Hp).
+  cbv zeta in Et. rewrite Et in E.
+  2:{ apply Forall_forall. intros rc _. apply lock_one_quiet. apply quiet_settled. exact Hm. }
+  injection E as <- <- <-. split; [reflexivity|].
+  replace (N.to_nat (N.of_nat (length (trail (cur t) hp (root i1 i2 code) (slots ++ [s]))) - 1))
+    with (length slots) by (rewrite HL; lia).
+  exact Hr.
 Qed.
 
 Theorem search_then_move mode t hp i1 i2 t1 path depth :
@@ -582,7 +736,11 @@ Theorem search_then_move mode t hp i1 i2 t1 path depth :
 Proof.
   intros Hm Htag E.
   destruct (search_path_ready mode t hp i1 i2 t1 path depth Hm Htag E) as [-> Hr].
-  apply move_ok; assumption.
+  destruct (N.eq_dec depth 0) as [->|Nz].
+  - apply move_ok_zero. rewrite (lock_two_settled c hash mode t i1 i2 Hm). exact (proj1 Hr).
+  - apply move_ok_pos; [exact Nz| |exact Hr].
+    split; [apply quiet_settled; exact Hm|]. split; [apply quiet_settled; exact Hm|].
+    intros j _. apply quiet_settled. exact Hm.
 Qed.
 
 (* the while loop of run_cuckoo is left in its first iteration, whatever the fuel *)
@@ -628,23 +786,27 @@ Proof.
   - exists t. left. split; reflexivity.
 Qed.
 
-(* N2 *)
-Theorem cuckoo_insert_no_fuel mode t k i1 i2 :
-  settled t -> snd (cuckoo_insert c hash mode t k i1 i2) <> CI_fuel.
+(* the part of cuckoo_insert around run_cuckoo *)
+Lemma cuckoo_insert_fuel_inv mode t k i1 i2 :
+  snd (run_cuckoo c hash mode t i1 i2) <> RC_fuel -> snd (cuckoo_insert c hash mode t k i1 i2) <> CI_fuel.
 Proof.
-  intro St. unfold cuckoo_insert.
+  intro H. unfold cuckoo_insert.
   destruct (try_find_insert_bucket c (cur t) i1 (hashed_partial hash k) k 0 (N.to_nat (spb c)) None)
     as [[|] r1]; [|cbn [snd]; discriminate].
   destruct (try_find_insert_bucket c (cur t) i2 (hashed_partial hash k) k 0 (N.to_nat (spb c)) None)
     as [[|] r2]; [|cbn [snd]; discriminate].
   destruct r1 as [s1|]; [cbn [snd]; discriminate|].
   destruct r2 as [s2|]; [cbn [snd]; discriminate|].
-  assert (H := run_cuckoo_no_fuel mode t i1 i2 St).
   destruct (run_cuckoo c hash mode t i1 i2) as [t1 [ib is_| |]]; cbn [snd] in H |- *.
   - destruct (pstatus (cuckoo_find c t1 k (hashed_partial hash k) i1 i2)); cbn [snd]; discriminate.
   - discriminate.
   - exfalso. apply H. reflexivity.
 Qed.
+
+(* N2 *)
+Theorem cuckoo_insert_no_fuel mode t k i1 i2 :
+  settled t -> snd (cuckoo_insert c hash mode t k i1 i2) <> CI_fuel.
+Proof. intro St. apply cuckoo_insert_fuel_inv. apply run_cuckoo_no_fuel. exact St. Qed.
 
 Corollary cuckoo_insert_pos mode t k i1 i2 :
   settled t -> exists t' pos, cuckoo_insert c hash mode t k i1 i2 = (t', CI_pos pos).
@@ -654,6 +816,241 @@ Proof.
   - exists t', pos. reflexivity.
   - exfalso. apply H. reflexivity.
 Qed.
+
+(* ================================================================== L. N1/N2 with deferred migration *)
+(* Normal mode on a table whose doubling was deferred (Lazy.v, invariant [wf]): taking a lock
+   migrates the stripe, so the table CHANGES during the search.  What makes the argument of
+   sections D-G go through: a migrated stripe never changes again ([lstep]), every occupied slot
+   of the current array lies in a migrated stripe, and every bucket the BFS scans is migrated
+   before it is scanned.  Hence walks only grow, full buckets stay full, and when the BFS stops
+   no strictly shorter walk to the bucket it stopped at exists in the table as it then is. *)
+
+Section LazyBFS.
+Variable hp i1 i2 : N.
+
+Notation wf := (wf c hash).
+Notation lstep := (lstep c).
+
+Definition migb (t : table) (b : N) : Prop := mig (lock_at t (lockind c b)) = true.
+
+Lemma migb_mod t b : migb t b <-> mig (lock_at t (b mod kmax c)) = true.
+Proof. unfold migb, lockind. rewrite (lockind_spec c Hc). reflexivity. Qed.
+
+(* an occupied slot of the current array lies in a migrated stripe *)
+Lemma occ_migb t b s e : wf t -> bget (cur t) b s = Some e -> migb t b.
+Proof.
+  intros W He. apply migb_mod.
+  destruct (wf_lazy c hash _ _ W) as [Hall|X]; [apply lock_at_mig; exact Hall|].
+  assert (Hn := li_empty c hash _ _ _ (wf_inv c hash _ _ W) b s e He).
+  destruct (mig (lock_at t (b mod kmax c))) eqn:M; [reflexivity|].
+  exfalso. apply Hn. unfold pendP. apply pendb_true. split.
+  - apply N.mod_lt. apply N.pow_nonzero. discriminate.
+  - rewrite (stripe_mod_old c _ b (lx_K c _ _ X)). exact M.
+Qed.
+
+(* migrated stripes stay migrated and keep their contents *)
+Definition stab (t t' : table) : Prop :=
+  (forall b, migb t b -> migb t' b) /\
+  (forall b s, migb t b -> bget (cur t') b s = bget (cur t) b s).
+
+Lemma lstep_stab t t' : lstep t t' -> stab t t'.
+Proof.
+  intros [_ [_ [A3 [_ [_ [_ [_ [_ [_ [_ [_ A12]]]]]]]]]]]. split.
+  - intros b Hb. apply A3. exact Hb.
+  - intros b s Hb. apply A12. apply migb_mod. exact Hb.
+Qed.
+
+Lemma stab_refl t : stab t t.
+Proof. split; [intros b H; exact H|intros b s _; reflexivity]. Qed.
+
+Lemma walk_stab t t' : wf t -> stab t t' -> forall slots b B,
+  walk (cur t) hp b slots = Some B -> walk (cur t') hp b slots = Some B.
+Proof.
+  intros W [_ S2]. induction slots as [|s rest IH]; intros b B Hw; [exact Hw|].
+  cbn [walk] in Hw |- *. destruct (bget (cur t) b s) as [e|] eqn:Eb; [|discriminate].
+  rewrite (S2 b s (occ_migb t b s e W Eb)), Eb. apply IH. exact Hw.
+Qed.
+
+(* a walk of the later table is a walk of the earlier one, or leaves it at a slot that was empty *)
+Lemma walk_break t t' : wf t -> stab t t' -> forall slots b B,
+  walk (cur t') hp b slots = Some B ->
+  walk (cur t) hp b slots = Some B \/
+  exists p1 s rest B1, slots = p1 ++ s :: rest /\ walk (cur t) hp b p1 = Some B1 /\
+                       bget (cur t) B1 s = None.
+Proof.
+  intros W [_ S2]. induction slots as [|s rest IH]; intros b B Hw; [left; exact Hw|].
+  cbn [walk] in Hw |- *. destruct (bget (cur t) b s) as [e|] eqn:Eb.
+  - rewrite (S2 b s (occ_migb t b s e W Eb)), Eb in Hw.
+    destruct (IH _ _ Hw) as [H|[p1 [s1 [rest1 [B1 [E1 [Hw1 Hn1]]]]]]]; [left; exact H|right].
+    exists (s :: p1), s1, rest1, B1. split; [rewrite E1; reflexivity|]. split; [|exact Hn1].
+    cbn [walk]. rewrite Eb. exact Hw1.
+  - right. exists [], s, rest, b. split; [reflexivity|]. split; [reflexivity|exact Eb].
+Qed.
+
+Lemma full_stab t t' B : wf t -> stab t t' -> full (cur t) B -> full (cur t') B.
+Proof.
+  intros W [_ S2] Hf s Hs. specialize (Hf s Hs).
+  destruct (bget (cur t) B s) as [e|] eqn:Eb; [|contradiction].
+  rewrite (S2 B s (occ_migb t B s e W Eb)), Eb. discriminate.
+Qed.
+
+Lemma node_ok_stab t t' y : wf t -> stab t t' -> node_ok t hp i1 i2 y -> node_ok t' hp i1 i2 y.
+Proof.
+  intros W S [Hd [code [slots [H1 [H2 [H3 [H4 H5]]]]]]]. split; [exact Hd|].
+  exists code, slots. repeat (split; [assumption|]). apply (walk_stab t t' W S). exact H5.
+Qed.
+
+Lemma covered_stab t t' q : wf t -> stab t t' -> covered t hp i1 i2 q -> covered t' hp i1 i2 q.
+Proof.
+  intros W S Hcov m B [code [slots [Hcode [Hf [Hl Hw']]]]] Hm4.
+  destruct (walk_break t t' W S slots _ B Hw') as [Hw|[p1 [s [rest [B1 [E1 [Hw1 Hn1]]]]]]].
+  - destruct (Hcov m B) as [Hfull|[y [suf [Hy [Hfs [Hws Hlen]]]]]]; [|exact Hm4| |].
+    + exists code, slots. repeat (split; [assumption|]). exact Hw.
+    + left. apply (full_stab t t' B W S Hfull).
+    + right. exists y, suf. split; [exact Hy|]. split; [exact Hfs|]. split; [|exact Hlen].
+      apply (walk_stab t t' W S). exact Hws.
+  - subst slots. apply Forall_app in Hf. destruct Hf as [Hf1 Hf2].
+    inversion Hf2 as [|s0 r0 Hs Hfr]; subst s0 r0.
+    rewrite app_length in Hl. cbn [length] in Hl.
+    destruct (Hcov (length p1) B1) as [Hfull|[y [suf [Hy [Hfs [Hws Hlen]]]]]]; [|lia| |].
+    + exists code, p1. repeat (split; [assumption|]). split; [reflexivity|exact Hw1].
+    + exfalso. exact (Hfull s Hs Hn1).
+    + right. exists y, (suf ++ s :: rest). split; [exact Hy|].
+      split; [apply Forall_app; split; [exact Hfs|constructor; assumption]|]. split.
+      * rewrite walk_app, (walk_stab t t' W S _ _ _ Hws).
+        rewrite walk_app, (walk_stab t t' W S _ _ _ Hw1) in Hw'. exact Hw'.
+      * rewrite app_length. cbn [length]. lia.
+Qed.
+
+(* each root bucket has been locked, or still waits in the queue at depth 0 *)
+Definition roots_inv (t : table) (q : list b_slot) : Prop :=
+  forall code, code <= 1 ->
+    migb t (root i1 i2 code) \/
+    exists y, In y q /\ qdepth y = 0 /\ qbucket y = root i1 i2 code.
+
+Lemma lazy_bfs_loop : forall fuel t q t' r, wf t ->
+  Forall (node_ok t hp i1 i2) q -> covered t hp i1 i2 q -> (exists d, layered d q) -> roots_inv t q ->
+  slot_search_loop c hash false t hp q fuel = (t', Some r) ->
+  wf t' /\ bfs_answer t' hp i1 i2 r /\ migb t' (qbucket r) /\
+  (qdepth r <> 0 -> migb t' i1 /\ migb t' i2).
+Proof.
+  induction fuel as [|f IH]; intros t q t' r W Hn Hcov [d Hlay] Hroots E; [discriminate|].
+  destruct q as [|x q']; [discriminate|].
+  cbn [slot_search_loop] in E.
+  destruct (lock_one_lstep c hash Hc t (qbucket x) W) as [W1 [S1 M1]].
+  set (t1 := lock_one c hash false t (qbucket x)) in *.
+  assert (St := lstep_stab t t1 S1).
+  assert (Hn1 : Forall (node_ok t1 hp i1 i2) (x :: q')).
+  { apply (Forall_impl _ (fun y H => node_ok_stab t t1 y W St H) Hn). }
+  assert (Hcov1 := covered_stab t t1 _ W St Hcov).
+  assert (Hroots1 : forall code, code <= 1 ->
+            migb t1 (root i1 i2 code) \/
+            exists y, In y q' /\ qdepth y = 0 /\ qbucket y = root i1 i2 code).
+  { intros code Hcode. destruct (Hroots code Hcode) as [H|[y [[<-|Hy] [Hd Hb]]]].
+    - left. apply (proj1 St). exact H.
+    - left. rewrite <- Hb. exact M1.
+    - right. exists y. split; [exact Hy|]. split; assumption. }
+  destruct (slot_search_scan c t1 hp x (qpathcode x mod spb c) 0 (N.to_nat (spb c)) [])
+    as [[r0|] ch] eqn:Es.
+  - injection E as <- <-. inversion Hn1 as [|x0 q0 Hx1 _]; subst x0 q0.
+    destruct (answer_of_scan t1 hp i1 i2 d x q' r0 ch Hx1 Hcov1 Hlay Es) as [Ha [Eb Ed]].
+    split; [exact W1|]. split; [exact Ha|]. split; [rewrite Eb; exact M1|].
+    intro Hd0.
+    assert (Hr : forall code, code <= 1 -> migb t1 (root i1 i2 code)).
+    { intros code Hcode. destruct (Hroots1 code Hcode) as [H|[y [Hy [Hd _]]]]; [exact H|exfalso].
+      assert (Hle := layered_head d x q' y Hlay (or_intror Hy)). rewrite Ed in Hd0. lia. }
+    split; [exact (Hr 0 ltac:(lia))|exact (Hr 1 ltac:(lia))].
+  - destruct (inv_step t1 hp i1 i2 d x q' ch Hn1 Hcov1 Hlay Es) as [H1 [H2 H3]].
+    apply (IH t1 (q' ++ ch) t' r W1 H1 H2 H3); [|exact E].
+    intros code Hcode. destruct (Hroots1 code Hcode) as [H|[y [Hy Hrest]]]; [left; exact H|right].
+    exists y. split; [apply in_or_app; left; exact Hy|exact Hrest].
+Qed.
+
+Lemma wf_tags t : wf t -> tags_ok (cur t).
+Proof. intros W b s e He. exact (ao_tag _ _ _ (li_arr c hash _ _ _ (wf_inv c hash _ _ W)) b s e He). Qed.
+
+(* the path found by the search is ready on the table the search leaves behind, and all the
+   locks the move will take are already held in the sense that their stripes are migrated *)
+Theorem lazy_search_ready t t1 path depth :
+  wf t ->
+  cuckoopath_search c hash false t hp i1 i2 = (t1, Some (path, depth)) ->
+  wf t1 /\ path_ready path (cur t1) (N.to_nat depth) /\
+  (forall j, (j <= N.to_nat depth)%nat -> migb t1 (crbucket (nth_rec path (N.of_nat j)))) /\
+  (depth <> 0 -> migb t1 i1 /\ migb t1 i2).
+Proof.
+  intros W E.
+  destruct (slot_search c hash false t hp i1 i2) as [t' [x|]] eqn:Es.
+  2:{ unfold cuckoopath_search in E. rewrite Es in E. discriminate. }
+  assert (Es' := Es). unfold slot_search in Es'. fold (bfs_init i1 i2) in Es'.
+  destruct (bfs_init_inv t hp i1 i2) as [H1 [H2 H3]].
+  assert (Hr0 : roots_inv t (bfs_init i1 i2)).
+  { intros code Hcode. right. assert (Hc01 : code = 0 \/ code = 1) by lia. destruct Hc01 as [-> | ->].
+    - eexists. split; [left; reflexivity|]. split; reflexivity.
+    - eexists. split; [right; left; reflexivity|]. split; reflexivity. }
+  destruct (lazy_bfs_loop _ t _ t' x W H1 H2 H3 Hr0 Es') as [W' [Ha [Mx Mroots]]].
+  destruct (answer_path_ready t' hp i1 i2 x (wf_tags t' W') Ha)
+    as [code [slots [s [Hf [Hs [Hl [Hp [HL [Hr HB]]]]]]]]]. cbv zeta in HL, Hr, HB.
+  set (T := trail (cur t') hp (root i1 i2 code) (slots ++ [s])) in *.
+  assert (HM : Forall (fun rc => migb t' (crbucket rc)) T).
+  { apply (Forall_impl _ (P := fun rc => (exists s' e, bget (cur t') (crbucket rc) s' = Some e) \/
+                                    crbucket rc = qbucket x)); [|exact HB].
+    intros rc [[s' [e He]]|Hq]; [exact (occ_migb t' _ _ _ W' He)|rewrite Hq; exact Mx]. }
+  assert (Et := cuckoopath_search_trail false t hp i1 i2 t' x code slots s Es Hf Hs Hl Hp).
+  cbv zeta in Et. fold T in Et. rewrite Et in E.
+  2:{ apply (Forall_impl _ (P := fun rc => migb t' (crbucket rc))); [|exact HM].
+      intros rc Hrc. apply lock_one_quiet. right. exact Hrc. }
+  injection E as <- <- <-.
+  replace (N.to_nat (N.of_nat (length T) - 1)) with (length slots) by (rewrite HL; lia).
+  split; [exact W'|]. split; [exact Hr|]. split.
+  - intros j Hj. unfold nth_rec. rewrite Nat2N.id. rewrite Forall_forall in HM. apply HM.
+    apply nth_In. rewrite HL. lia.
+  - intro Hd. apply Mroots. intro Hx0. apply Hd. rewrite HL.
+    replace (length slots) with 0%nat by lia. reflexivity.
+Qed.
+
+Theorem lazy_search_then_move t t1 path depth :
+  wf t ->
+  cuckoopath_search c hash false t hp i1 i2 = (t1, Some (path, depth)) ->
+  snd (cuckoopath_move c hash false t1 path depth i1 i2) = true.
+Proof.
+  intros W E.
+  destruct (lazy_search_ready t t1 path depth W E) as [W1 [Hr [HM Hroots]]].
+  destruct (N.eq_dec depth 0) as [->|Nz].
+  - apply move_ok_zero.
+    destruct (lock_two_lstep c hash Hc t1 i1 i2 W1) as [_ [S _]].
+    destruct (lstep_stab _ _ S) as [_ S2].
+    rewrite S2; [exact (proj1 Hr)|]. apply (HM 0%nat). lia.
+  - destruct (Hroots Nz) as [M1 M2].
+    apply move_ok_pos; [exact Nz| |exact Hr].
+    split; [right; exact M1|]. split; [right; exact M2|]. intros j Hj. right. apply HM. exact Hj.
+Qed.
+
+End LazyBFS.
+
+Notation wf := (wf c hash).
+
+Theorem run_cuckoo_loop_once_wf t hp i1 i2 fuel :
+  wf t ->
+  run_cuckoo_loop c hash false t hp i1 i2 (S fuel) = run_cuckoo_loop c hash false t hp i1 i2 1 /\
+  snd (run_cuckoo_loop c hash false t hp i1 i2 (S fuel)) <> RC_fuel.
+Proof.
+  intro W. cbn [run_cuckoo_loop].
+  destruct (cuckoopath_search c hash false t hp i1 i2) as [t1 [[path depth]|]] eqn:Es.
+  - assert (Hok := lazy_search_then_move hp i1 i2 t t1 path depth W Es).
+    destruct (cuckoopath_move c hash false t1 path depth i1 i2) as [t2 ok]. cbn [snd] in Hok. subst ok.
+    split; [reflexivity|]. cbn [snd]. discriminate.
+  - split; [reflexivity|]. cbn [snd]. discriminate.
+Qed.
+
+(* N1 for the deferred regime *)
+Theorem run_cuckoo_no_fuel_wf t i1 i2 :
+  wf t -> snd (run_cuckoo c hash false t i1 i2) <> RC_fuel.
+Proof. intro W. unfold run_cuckoo, run_cuckoo_fuel. apply run_cuckoo_loop_once_wf. exact W. Qed.
+
+(* N2 for the deferred regime *)
+Theorem cuckoo_insert_no_fuel_wf t k i1 i2 :
+  wf t -> snd (cuckoo_insert c hash false t k i1 i2) <> CI_fuel.
+Proof. intro W. apply cuckoo_insert_fuel_inv. apply run_cuckoo_no_fuel_wf. exact W. Qed.
 
 (* ================================================================== H. N3: the insert loop *)
 
@@ -798,6 +1195,20 @@ Proof.
   - injection E as <- <-. reflexivity.
 Qed.
 
+Lemma uprase_gen_eq_f mode t k v g :
+  uprase_gen c hash mode t k v g =
+  uprase_f c hash insert_loop_fuel (cuckoo_fast_double c hash) mode t k v g.
+Proof. unfold uprase_gen, uprase_f. reflexivity. Qed.
+
+Lemma uprase_gen_exn mode t k v g t' e :
+  settled t -> uprase_gen c hash mode t k v g = (t', inl e) ->
+  cuckoo_insert_loop c hash (cuckoo_fast_double c hash) mode t k
+    (i1_of (bhp (cur t)) k) (i2_of (bhp (cur t)) k) insert_loop_fuel = (t', IL_exn e).
+Proof.
+  intros St E. rewrite uprase_gen_eq_f in E.
+  apply (uprase_f_exn insert_loop_fuel (cuckoo_fast_double c hash) mode t k v g t' e St E).
+Qed.
+
 Theorem uprase_gen_no_fuel mode t k v g :
   nothrow c = true -> good t -> immediate c mode t ->
   esc t \/ snd (uprase_gen c hash mode t k v g) <> inl EOutOfFuel.
@@ -806,8 +1217,7 @@ Proof.
   destruct (uprase_gen c hash mode t k v g) as [t' r] eqn:E. cbn [snd].
   destruct r as [e|x]; [|right; discriminate].
   destruct e; try (right; discriminate).
-  rewrite uprase_gen_eq in E. unfold uprase_with in E.
-  apply (uprase_f_exn _ _ _ _ _ _ _ _ _ St) in E.
+  apply (uprase_gen_exn _ _ _ _ _ _ _ St) in E.
   destruct (insert_loop_no_fuel mode t k Hnt G Him t' _ E) as [He|H]; [left; exact He|].
   exfalso. apply H. reflexivity.
 Qed.
@@ -827,9 +1237,661 @@ Theorem uprase_gen_present_no_exn mode t k v g :
 Proof.
   intros G Hk e. assert (St : settled t) by (destruct G as [St _]; exact St).
   destruct (uprase_gen c hash mode t k v g) as [t' r] eqn:E. cbn [snd]. intros ->.
-  rewrite uprase_gen_eq in E. unfold uprase_with in E.
-  apply (uprase_f_exn _ _ _ _ _ _ _ _ _ St) in E. rewrite insert_loop_fuel_S in E.
+  apply (uprase_gen_exn _ _ _ _ _ _ _ St) in E. rewrite insert_loop_fuel_S in E.
   destruct (insert_loop_present c hash Hc _ mode t k _ G Hk t' _ E) as [pos [H _]]. discriminate.
 Qed.
 
+(* ================================================================== I. the rebuild through a temporary map *)
+
+(* (stated as an equation: unfolding insert_with inside a hypothesis makes the kernel unfold the
+   loop at its literal fuel when the proof is checked) *)
+Lemma insert_with_unfold fd t k v :
+  insert_with c hash fd t k v =
+  let '(t1, i1, i2) := snapshot_and_lock_two c hash false t k in
+  match cuckoo_insert_loop c hash fd false t1 k i1 i2 insert_loop_fuel with
+  | (t2, IL_exn e) => (t2, Some e)
+  | (t2, IL_pos pos _ _) =>
+    match pstatus pos with
+    | St_ok => (add_to_bucket c t2 (pindex pos) (pslot pos) (hashed_partial hash k) k v, None)
+    | _ => (t2, None)
+    end
+  end.
+Proof. reflexivity. Qed.
+
+(* an EOutOfFuel of insert_with (one insertion into the temporary map) is handed up from the
+   temporary map's own expansion function *)
+Lemma insert_with_fuel_origin lim fd :
+  fd_ok lim fd false ->
+  forall nm k v, good nm -> lim (mhp nm) -> mhp nm <= 59 ->
+  forall nm', insert_with c hash fd nm k v = (nm', Some EOutOfFuel) ->
+  exists t1, evolves nm t1 /\ snd (fd false t1 (bhp (cur t1))) = inl EOutOfFuel.
+Proof.
+  intros Hfd nm k v G Hl Hcap nm' E.
+  assert (St : settled nm) by (destruct G as [St _]; exact St).
+  rewrite insert_with_unfold in E.
+  rewrite (snapshot_and_lock_two_settled c hash false nm k (se_mig _ _ _ St)), hashpower_eq in E.
+  destruct (cuckoo_insert_loop c hash fd false nm k (i1_of (bhp (cur nm)) k) (i2_of (bhp (cur nm)) k)
+              insert_loop_fuel) as [t2 [pos j1 j2|e]] eqn:El.
+  - destruct (pstatus pos); discriminate.
+  - injection E as -> ->.
+    assert (Hf : 60 <= N.of_nat insert_loop_fuel + bhp (cur nm)) by (unfold insert_loop_fuel; lia).
+    destruct (insert_loop_fuel_origin lim fd false Hfd insert_loop_fuel nm k G Hl Hf nm' El) as [He|H].
+    + exfalso. exact (esc_capped c hash nm Hcap He).
+    + exact H.
+Qed.
+
+(* a successful insertion keeps the temporary map good *)
+Lemma insert_with_step lim fd :
+  fd_ok lim fd false ->
+  forall nm k v, good nm -> lim (mhp nm) -> mhp nm <= 59 ->
+  forall nm', insert_with c hash fd nm k v = (nm', None) ->
+  good nm' /\ lim_same nm nm' /\ bhp (cur nm) <= bhp (cur nm').
+Proof.
+  intros Hfd nm k v G Hl Hcap nm' E. rewrite insert_with_eq in E.
+  destruct (uprase_with c hash fd false nm k v (fun _ _ => None)) as [t' ur] eqn:Eu.
+  destruct (uprase_with_good c hash Hc lim fd false Hfd nm k v _ G Hl t' ur Eu) as [Hin Hout].
+  assert (St : settled nm) by (destruct G as [St _]; exact St).
+  assert (Hp : up_post c hash nm k v (fun _ _ => None) t' ur).
+  { destruct (key_in_dec c hash nm k (se_arr _ _ _ St)) as [Hk|Hk]; [exact (Hin Hk)|].
+    destruct (Hout Hk) as [He|Hp]; [|exact Hp]. exfalso. exact (esc_capped c hash nm Hcap He). }
+  unfold up_post in Hp. destruct ur as [e|[[ins lg] [b s]]]; [discriminate|].
+  injection E as <-. destruct Hp as [G' [L [Hb _]]]. split; [exact G'|]. split; assumption.
+Qed.
+
+(* the temporary map while it is being filled *)
+Definition tmp_inv (nm0 nm : table) : Prop :=
+  good nm /\ lim_same nm0 nm /\ bhp (cur nm0) <= bhp (cur nm).
+
+(* a table on which the expansion function reports EOutOfFuel *)
+Definition fuel_witness (fd : bool -> table -> N -> rres) (nm0 : table) : Prop :=
+  exists t1, tmp_inv nm0 t1 /\ snd (fd false t1 (bhp (cur t1))) = inl EOutOfFuel.
+
+Lemma tmp_inv_trans nm0 nm nm' :
+  tmp_inv nm0 nm -> good nm' -> lim_same nm nm' -> bhp (cur nm) <= bhp (cur nm') -> tmp_inv nm0 nm'.
+Proof.
+  intros [_ [L B]] G' L' B'. split; [exact G'|]. split; [eapply lim_same_trans; eassumption|lia].
+Qed.
+
+Lemma expand_move_slots_fuel lim fd nm0 b :
+  fd_ok lim fd false -> lim (mhp nm0) -> mhp nm0 <= 59 ->
+  forall n s src nm, tmp_inv nm0 nm ->
+  forall src' nm' r,
+  expand_move_slots c (insert_with c hash fd) src nm b s n = (src', nm', r) ->
+  match r with
+  | None => tmp_inv nm0 nm'
+  | Some ex => ex = EOutOfFuel -> fuel_witness fd nm0
+  end.
+Proof.
+  intros Hfd Hl0 Hcap. induction n as [|n IH]; intros s src nm X src' nm' r E.
+  - cbn [expand_move_slots] in E. injection E as <- <- <-. exact X.
+  - cbn [expand_move_slots] in E.
+    destruct (bget src b s) as [e|]; [|apply (IH _ _ _ X _ _ _ E)].
+    assert (G := proj1 X). assert (L := proj1 (proj2 X)).
+    assert (Hm : mhp nm = mhp nm0) by (destruct L as [_ [_ [Hm _]]]; exact Hm).
+    assert (Hl : lim (mhp nm)) by (rewrite Hm; exact Hl0).
+    assert (Hcap' : mhp nm <= 59) by (rewrite Hm; exact Hcap).
+    destruct (insert_with c hash fd nm (ekey e) (eval e)) as [nm1 r1] eqn:Ei.
+    destruct r1 as [ex|].
+    + injection E as <- <- <-. intros ->.
+      destruct (insert_with_fuel_origin lim fd Hfd nm _ _ G Hl Hcap' nm1 Ei) as [t1 [Ev H1]].
+      exists t1. split; [|exact H1]. destruct Ev as [G1 [_ [L1 B1]]].
+      apply (tmp_inv_trans nm0 nm t1 X G1 L1 B1).
+    + destruct (insert_with_step lim fd Hfd nm _ _ G Hl Hcap' nm1 Ei) as [G1 [L1 B1]].
+      apply (IH _ _ nm1 (tmp_inv_trans nm0 nm nm1 X G1 L1 B1) _ _ _ E).
+Qed.
+
+Lemma expand_move_buckets_fuel lim fd nm0 :
+  fd_ok lim fd false -> lim (mhp nm0) -> mhp nm0 <= 59 ->
+  forall n b src nm, tmp_inv nm0 nm ->
+  forall src' nm' r,
+  expand_move_buckets c (insert_with c hash fd) src nm b n = (src', nm', r) ->
+  match r with
+  | None => tmp_inv nm0 nm'
+  | Some ex => ex = EOutOfFuel -> fuel_witness fd nm0
+  end.
+Proof.
+  intros Hfd Hl0 Hcap. induction n as [|n IH]; intros b src nm X src' nm' r E.
+  - cbn [expand_move_buckets] in E. injection E as <- <- <-. exact X.
+  - cbn [expand_move_buckets] in E.
+    destruct (expand_move_slots c (insert_with c hash fd) src nm b 0 (N.to_nat (spb c)))
+      as [[src1 nm1] r1] eqn:Es.
+    assert (Hs := expand_move_slots_fuel lim fd nm0 b Hfd Hl0 Hcap _ _ _ _ X _ _ _ Es).
+    destruct r1 as [ex|].
+    + injection E as <- <- <-. exact Hs.
+    + apply (IH _ _ _ Hs _ _ _ E).
+Qed.
+
+(* where an EOutOfFuel of a rebuild comes from: some state of its temporary map (hashpower at
+   least the target, same limits as the table) on which the temporary map's automatic expansion
+   reports EOutOfFuel *)
+Theorem es_body_fuel_origin fd auto t new_hp :
+  fd_ok (limC c) fd false -> good t -> limC c (mhp t) ->
+  snd (es_body c hash fd auto t new_hp) = inl EOutOfFuel ->
+  exists nm, good nm /\ mhp nm = mhp t /\ new_hp <= bhp (cur nm) /\
+             snd (fd false nm (bhp (cur nm))) = inl EOutOfFuel.
+Proof.
+  intros Hfd G [Hlb H58] E. unfold es_body in E. cbv zeta in E.
+  destruct (crv_self c hash auto t new_hp) as [[Hm Ec]|[[Hm [Ha [Hlf Ec]]]|[Hm [Hlf Ec]]]];
+    cbv zeta in Ec; rewrite Ec in E; [discriminate|discriminate|].
+  destruct (N.ltb_spec 58 new_hp) as [L58|Hn58]; [discriminate|].
+  assert (Hne : mhp t <> NO_MAXIMUM_HASHPOWER) by (unfold NO_MAXIMUM_HASHPOWER; lia).
+  assert (Hnh : new_hp <= mhp t).
+  { destruct (N.le_gt_cases new_hp (mhp t)) as [L|L]; [exact L|]. exfalso. apply Hm. split; assumption. }
+  destruct (rehash_with_workers_good c hash t G) as [G1 [Ec1 [El1 [L1 Hrc1]]]].
+  cbv zeta in G1, Ec1, El1, L1, Hrc1.
+  set (t1 := rehash_with_workers c hash t) in *.
+  assert (Hm1 : mhp t1 = mhp t) by (destruct L1 as [_ [_ [H _]]]; exact H).
+  assert (Hmax1 : mhp t1 = NO_MAXIMUM_HASHPOWER \/ new_hp <= mhp t1) by (right; rewrite Hm1; exact Hnh).
+  destruct (new_map_good c hash Hc auto t1 new_hp Hn58 Hmax1) as [G0 [Hhp0 [Hm0 _]]].
+  cbv zeta in G0, Hhp0, Hm0.
+  set (nm0 := new_map c auto t1 new_hp) in *.
+  assert (Hl0 : limC c (mhp nm0)) by (rewrite Hm0, Hm1; split; assumption).
+  assert (Hcap0 : mhp nm0 <= 59) by (rewrite Hm0, Hm1; lia).
+  assert (X0 : tmp_inv nm0 nm0) by (split; [exact G0|split; [apply lim_same_refl|lia]]).
+  destruct (expand_move_buckets c (insert_with c hash fd) (cur t1) nm0 0
+              (N.to_nat (hashsize (hashpower t)))) as [[src' nm1] r] eqn:Em.
+  assert (Hx := expand_move_buckets_fuel (limC c) fd nm0 Hfd Hl0 Hcap0 _ _ _ _ X0 _ _ _ Em).
+  destruct r as [ex|]; [|discriminate].
+  cbn [snd] in E. injection E as ->.
+  destruct (Hx eq_refl) as [nm [[Gn [Ln Bn]] Hn]].
+  exists nm. split; [exact Gn|]. split; [|split; [|exact Hn]].
+  - destruct Ln as [_ [_ [H _]]]. rewrite H, Hm0. exact Hm1.
+  - rewrite <- Hhp0. exact Bn.
+Qed.
+
+Theorem expand_simple_fuel_origin n auto mode t new_hp :
+  good t -> limC c (mhp t) ->
+  snd (expand_simple_f c hash (S n) auto mode t new_hp) = inl EOutOfFuel ->
+  exists nm, good nm /\ mhp nm = mhp t /\ new_hp <= bhp (cur nm) /\
+             snd (fast_double_f c hash n true false nm (bhp (cur nm))) = inl EOutOfFuel.
+Proof.
+  intros G Hl E. rewrite expand_simple_f_S in E.
+  apply (es_body_fuel_origin _ auto t new_hp (proj1 (resize_f_good c hash Hc n) false) G Hl E).
+Qed.
+
+(* ------------------------------------------------------------------ nothrow types *)
+
+Theorem expand_simple_nothrow_no_fuel n auto mode t new_hp :
+  nothrow c = true -> good t -> limC c (mhp t) ->
+  snd (expand_simple_f c hash (S (S n)) auto mode t new_hp) <> inl EOutOfFuel.
+Proof.
+  intros Hnt G Hl E.
+  destruct (expand_simple_fuel_origin (S n) auto mode t new_hp G Hl E) as [nm [_ [_ [_ H]]]].
+  exact (fast_double_nothrow_no_fuel n true false nm _ Hnt H).
+Qed.
+
+Theorem cuckoo_expand_simple_no_fuel auto mode t new_hp :
+  nothrow c = true -> good t -> limC c (mhp t) ->
+  snd (cuckoo_expand_simple c hash auto mode t new_hp) <> inl EOutOfFuel.
+Proof. intros Hnt G Hl. apply (expand_simple_nothrow_no_fuel 4); assumption. Qed.
+
+Theorem cuckoo_fast_double_no_fuel mode t hp :
+  nothrow c = true -> snd (cuckoo_fast_double c hash mode t hp) <> inl EOutOfFuel.
+Proof. intro Hnt. apply (fast_double_nothrow_no_fuel 5). exact Hnt. Qed.
+
+Lemma rehash_exn mode t n e :
+  snd (cuckoo_rehash c hash mode t n) = inl e ->
+  snd (cuckoo_expand_simple c hash false mode t n) = inl e.
+Proof.
+  unfold cuckoo_rehash. destruct (n =? hashpower t); [discriminate|].
+  destruct (cuckoo_expand_simple c hash false mode t n) as [t1 [e'|st]]; cbn [snd]; [|discriminate].
+  intro H. injection H as ->. reflexivity.
+Qed.
+
+Theorem cuckoo_rehash_no_fuel mode t n :
+  nothrow c = true -> good t -> limC c (mhp t) ->
+  snd (cuckoo_rehash c hash mode t n) <> inl EOutOfFuel.
+Proof.
+  intros Hnt G Hl E. apply rehash_exn in E.
+  exact (cuckoo_expand_simple_no_fuel false mode t n Hnt G Hl E).
+Qed.
+
+Theorem cuckoo_reserve_no_fuel mode t n :
+  nothrow c = true -> good t -> limC c (mhp t) ->
+  snd (cuckoo_reserve c hash mode t n) <> inl EOutOfFuel.
+Proof.
+  intros Hnt G Hl. rewrite cuckoo_reserve_eq. apply cuckoo_rehash_no_fuel; assumption.
+Qed.
+
+(* ================================================================== M. fuel monotonicity *)
+(* No invariant is needed here: a run that did not stop for lack of fuel is reproduced unchanged by
+   every larger amount of fuel.  (slot_search_loop and reserve_calc_loop have no distinguished
+   out-of-fuel result; their bounds are slot_search_fuel_enough in InsertLemmas.v and
+   reserve_calc_spec in Stats.v.) *)
+
+Theorem run_cuckoo_loop_mono mode hp i1 i2 m : forall n t,
+  snd (run_cuckoo_loop c hash mode t hp i1 i2 n) <> RC_fuel ->
+  run_cuckoo_loop c hash mode t hp i1 i2 (n + m) = run_cuckoo_loop c hash mode t hp i1 i2 n.
+Proof.
+  induction n as [|n IH]; intros t H.
+  - exfalso. apply H. reflexivity.
+  - change (S n + m)%nat with (S (n + m)). cbn [run_cuckoo_loop] in H |- *.
+    destruct (cuckoopath_search c hash mode t hp i1 i2) as [t1 [[path depth]|]]; [|reflexivity].
+    destruct (cuckoopath_move c hash mode t1 path depth i1 i2) as [t2 [|]]; [reflexivity|].
+    apply IH. exact H.
+Qed.
+
+(* fd' does whatever fd does, except possibly where fd runs out of fuel *)
+Definition fd_le (fd fd' : bool -> table -> N -> rres) : Prop :=
+  forall mode t hp, snd (fd mode t hp) <> inl EOutOfFuel -> fd' mode t hp = fd mode t hp.
+
+Definition ins_le (ins ins' : table -> N -> Z -> table * option exn) : Prop :=
+  forall t k v, snd (ins t k v) <> Some EOutOfFuel -> ins' t k v = ins t k v.
+
+Lemma fd_le_refl fd : fd_le fd fd.
+Proof. intros mode t hp _. reflexivity. Qed.
+
+Theorem cuckoo_insert_loop_mono fd fd' mode m : fd_le fd fd' -> forall n t k i1 i2,
+  snd (cuckoo_insert_loop c hash fd mode t k i1 i2 n) <> IL_exn EOutOfFuel ->
+  cuckoo_insert_loop c hash fd' mode t k i1 i2 (n + m) = cuckoo_insert_loop c hash fd mode t k i1 i2 n.
+Proof.
+  intro Hle. induction n as [|n IH]; intros t k i1 i2 H.
+  - exfalso. apply H. reflexivity.
+  - change (S n + m)%nat with (S (n + m)). cbn [cuckoo_insert_loop] in H |- *.
+    destruct (cuckoo_insert c hash mode t k i1 i2) as [t1 [pos|]]; [|exfalso; apply H; reflexivity].
+    destruct (pstatus pos); try reflexivity;
+      try (destruct (snapshot_and_lock_two c hash mode t1 k) as [[t3 j1] j2]; apply IH; exact H).
+    (* St_table_full *)
+    destruct (fd mode t1 (hashpower t)) as [t2 r2] eqn:Efd.
+    assert (Hne : snd (fd mode t1 (hashpower t)) <> inl EOutOfFuel).
+    { rewrite Efd. cbn [snd]. destruct r2 as [e|st]; [|discriminate].
+      intro X. injection X as ->. apply H. reflexivity. }
+    rewrite (Hle mode t1 (hashpower t) Hne), Efd.
+    destruct r2 as [e|st]; [reflexivity|].
+    destruct (snapshot_and_lock_two c hash mode t2 k) as [[t3 j1] j2]. apply IH. exact H.
+Qed.
+
+Corollary cuckoo_insert_loop_fuel_mono fd mode n m t k i1 i2 :
+  snd (cuckoo_insert_loop c hash fd mode t k i1 i2 n) <> IL_exn EOutOfFuel ->
+  cuckoo_insert_loop c hash fd mode t k i1 i2 (n + m) = cuckoo_insert_loop c hash fd mode t k i1 i2 n.
+Proof. apply cuckoo_insert_loop_mono. apply fd_le_refl. Qed.
+
+Lemma insert_with_mono fd fd' : fd_le fd fd' -> ins_le (insert_with c hash fd) (insert_with c hash fd').
+Proof.
+  intros Hle t k v H. rewrite (insert_with_unfold fd) in H.
+  rewrite (insert_with_unfold fd), (insert_with_unfold fd').
+  destruct (snapshot_and_lock_two c hash false t k) as [[t1 i1] i2].
+  assert (Hm := cuckoo_insert_loop_mono fd fd' false 0 Hle insert_loop_fuel t1 k i1 i2).
+  rewrite Nat.add_0_r in Hm. rewrite Hm; [reflexivity|].
+  destruct (cuckoo_insert_loop c hash fd false t1 k i1 i2 insert_loop_fuel) as [t2 [pos j1 j2|e]];
+    cbn [snd] in H |- *; [discriminate|].
+  intro X. injection X as ->. apply H. reflexivity.
+Qed.
+
+Lemma expand_move_slots_mono ins ins' b : ins_le ins ins' -> forall n src nm s,
+  snd (expand_move_slots c ins src nm b s n) <> Some EOutOfFuel ->
+  expand_move_slots c ins' src nm b s n = expand_move_slots c ins src nm b s n.
+Proof.
+  intro Hle. induction n as [|n IH]; intros src nm s H; [reflexivity|].
+  cbn [expand_move_slots] in H |- *.
+  destruct (bget src b s) as [e|]; [|apply IH; exact H].
+  destruct (ins nm (ekey e) (eval e)) as [nm1 r1] eqn:Ei.
+  assert (Hne : snd (ins nm (ekey e) (eval e)) <> Some EOutOfFuel).
+  { rewrite Ei. cbn [snd]. destruct r1 as [ex|]; [|discriminate].
+    intro X. injection X as ->. apply H. reflexivity. }
+  rewrite (Hle nm _ _ Hne), Ei. destruct r1 as [ex|]; [reflexivity|]. apply IH. exact H.
+Qed.
+
+Lemma expand_move_buckets_mono ins ins' : ins_le ins ins' -> forall n src nm b,
+  snd (expand_move_buckets c ins src nm b n) <> Some EOutOfFuel ->
+  expand_move_buckets c ins' src nm b n = expand_move_buckets c ins src nm b n.
+Proof.
+  intro Hle. induction n as [|n IH]; intros src nm b H; [reflexivity|].
+  cbn [expand_move_buckets] in H |- *.
+  destruct (expand_move_slots c ins src nm b 0 (N.to_nat (spb c))) as [[src1 nm1] r1] eqn:Es.
+  assert (Hne : snd (expand_move_slots c ins src nm b 0 (N.to_nat (spb c))) <> Some EOutOfFuel).
+  { rewrite Es. cbn [snd]. destruct r1 as [ex|]; [|discriminate].
+    intro X. injection X as ->. apply H. reflexivity. }
+  rewrite (expand_move_slots_mono ins ins' b Hle _ _ _ _ Hne), Es.
+  destruct r1 as [ex|]; [reflexivity|]. apply IH. exact H.
+Qed.
+
+Lemma es_body_mono fd fd' auto t new_hp : fd_le fd fd' ->
+  snd (es_body c hash fd auto t new_hp) <> inl EOutOfFuel ->
+  es_body c hash fd' auto t new_hp = es_body c hash fd auto t new_hp.
+Proof.
+  intros Hle H. unfold es_body in H |- *. cbv zeta in H |- *.
+  destruct (check_resize_validity c auto t (hashpower t) new_hp) as [[e|]|st];
+    [reflexivity|reflexivity|].
+  destruct st; [|reflexivity|reflexivity|reflexivity|reflexivity|reflexivity].
+  destruct (58 <? new_hp); [reflexivity|].
+  set (t1 := rehash_with_workers c hash t) in *.
+  set (nm0 := new_map c auto t1 new_hp) in *.
+  set (n := N.to_nat (hashsize (hashpower t))) in *.
+  assert (Hne : snd (expand_move_buckets c (insert_with c hash fd) (cur t1) nm0 0 n) <> Some EOutOfFuel).
+  { destruct (expand_move_buckets c (insert_with c hash fd) (cur t1) nm0 0 n) as [[src' nm1] [ex|]];
+      cbn [snd] in H |- *; [|discriminate].
+    intro X. injection X as ->. apply H. reflexivity. }
+  rewrite (expand_move_buckets_mono _ _ (insert_with_mono fd fd' Hle) n (cur t1) nm0 0 Hne).
+  reflexivity.
+Qed.
+
+(* the standard lemma that makes the fuelled model of the resize functions faithful *)
+Theorem resize_mono : forall n,
+  (forall m auto mode t hp,
+     snd (fast_double_f c hash n auto mode t hp) <> inl EOutOfFuel ->
+     fast_double_f c hash (n + m) auto mode t hp = fast_double_f c hash n auto mode t hp) /\
+  (forall m auto mode t new_hp,
+     snd (expand_simple_f c hash n auto mode t new_hp) <> inl EOutOfFuel ->
+     expand_simple_f c hash (n + m) auto mode t new_hp = expand_simple_f c hash n auto mode t new_hp).
+Proof.
+  induction n as [|n [IH1 IH2]].
+  - split; intros m auto mode t hp H; exfalso; apply H; reflexivity.
+  - split; intros m auto mode t hp H; change (S n + m)%nat with (S (n + m)).
+    + rewrite (fast_double_f_S c hash n) in H.
+      rewrite (fast_double_f_S c hash (n + m)), (fast_double_f_S c hash n).
+      destruct (negb (nothrow c)); [|reflexivity].
+      apply IH2. exact H.
+    + rewrite (expand_simple_f_S c hash n) in H.
+      rewrite (expand_simple_f_S c hash (n + m)), (expand_simple_f_S c hash n).
+      apply es_body_mono; [|exact H].
+      intros mode' t' hp' H'. apply IH1. exact H'.
+Qed.
+
+Corollary fast_double_f_mono n m auto mode t hp :
+  snd (fast_double_f c hash n auto mode t hp) <> inl EOutOfFuel ->
+  fast_double_f c hash (n + m) auto mode t hp = fast_double_f c hash n auto mode t hp.
+Proof. apply (proj1 (resize_mono n)). Qed.
+
+Corollary expand_simple_f_mono n m auto mode t new_hp :
+  snd (expand_simple_f c hash n auto mode t new_hp) <> inl EOutOfFuel ->
+  expand_simple_f c hash (n + m) auto mode t new_hp = expand_simple_f c hash n auto mode t new_hp.
+Proof. apply (proj2 (resize_mono n)). Qed.
+
+(* consequently the choice resize_fuel = 6 only matters for runs that exhaust it: any run that
+   completes with less fuel is the run of the model, and a run of the model that completes is the
+   run at every larger fuel *)
+Corollary cuckoo_expand_simple_stable n auto mode t new_hp :
+  (n <= resize_fuel)%nat ->
+  snd (expand_simple_f c hash n auto mode t new_hp) <> inl EOutOfFuel ->
+  cuckoo_expand_simple c hash auto mode t new_hp = expand_simple_f c hash n auto mode t new_hp.
+Proof.
+  intros Hn H. unfold cuckoo_expand_simple.
+  replace resize_fuel with (n + (resize_fuel - n))%nat by (clear - Hn; lia).
+  apply expand_simple_f_mono. exact H.
+Qed.
+
+Corollary cuckoo_expand_simple_more_fuel m auto mode t new_hp :
+  snd (cuckoo_expand_simple c hash auto mode t new_hp) <> inl EOutOfFuel ->
+  expand_simple_f c hash (resize_fuel + m) auto mode t new_hp = cuckoo_expand_simple c hash auto mode t new_hp.
+Proof. intro H. unfold cuckoo_expand_simple in *. apply expand_simple_f_mono. exact H. Qed.
+
+Corollary run_cuckoo_more_fuel mode t i1 i2 m :
+  snd (run_cuckoo c hash mode t i1 i2) <> RC_fuel ->
+  run_cuckoo_loop c hash mode t (hashpower t) i1 i2 (run_cuckoo_fuel + m) = run_cuckoo c hash mode t i1 i2.
+Proof. intro H. unfold run_cuckoo in *. apply run_cuckoo_loop_mono. exact H. Qed.
+
+(* ================================================================== J. N4: element types whose move may throw *)
+(* For such types every expansion is a rebuild through a temporary map, and the temporary map's
+   own expansions are rebuilds again: resize_fuel bounds the nesting.  expand_simple_fuel_origin
+   says that an EOutOfFuel of a rebuild is an EOutOfFuel of an automatic expansion of its temporary
+   map, whose hashpower is at least the target.  Iterating: the nested temporary maps have
+   strictly increasing hashpowers, all within maximum_hashpower, so fuel n can only be exhausted
+   when there is room for about n/2 nested doublings below the maximum. *)
+
+Definition fuel_room (n : nat) (D : N) : Prop :=
+  forall auto mode t new_hp, good t -> limC c (mhp t) ->
+    snd (expand_simple_f c hash n auto mode t new_hp) = inl EOutOfFuel -> new_hp + D <= mhp t + 1.
+
+Lemma good_within_cap t : good t -> limC c (mhp t) -> bhp (cur t) <= mhp t.
+Proof.
+  intros [_ [_ [_ [_ Hw]]]] [_ H58]. destruct Hw as [Hw|Hw]; [|exact Hw].
+  rewrite Hw in H58. unfold NO_MAXIMUM_HASHPOWER in H58. lia.
+Qed.
+
+Lemma fuel_room_base n : fuel_room (S n) 1.
+Proof.
+  intros auto mode t new_hp G Hl E.
+  destruct (expand_simple_fuel_origin n auto mode t new_hp G Hl E) as [nm [Gn [Hm [Hb _]]]].
+  assert (Hln : limC c (mhp nm)) by (rewrite Hm; exact Hl).
+  assert (H := good_within_cap nm Gn Hln). rewrite Hm in H. lia.
+Qed.
+
+Lemma fuel_room_step n D : nothrow c = false -> fuel_room (S n) D -> fuel_room (S (S (S n))) (D + 1).
+Proof.
+  intros Hnt HP auto mode t new_hp G Hl E.
+  destruct (expand_simple_fuel_origin (S (S n)) auto mode t new_hp G Hl E) as [nm [Gn [Hm [Hb Hf]]]].
+  assert (Hln : limC c (mhp nm)) by (rewrite Hm; exact Hl).
+  rewrite (fast_double_f_S_throw c hash (S n) true false nm _ Hnt) in Hf.
+  assert (H := HP true false nm (bhp (cur nm) + 1) Gn Hln Hf). rewrite Hm in H. lia.
+Qed.
+
+Theorem fuel_room_all : nothrow c = false ->
+  forall j, fuel_room (S (2 * j)) (N.of_nat j + 1) /\ fuel_room (S (S (2 * j))) (N.of_nat j + 1).
+Proof.
+  intro Hnt. induction j as [|j [IH1 IH2]].
+  - split; apply fuel_room_base.
+  - replace (2 * S j)%nat with (S (S (2 * j))) by lia.
+    replace (N.of_nat (S j) + 1) with (N.of_nat j + 1 + 1) by lia.
+    split; apply fuel_room_step; assumption.
+Qed.
+
+(* with resize_fuel = 6: a rebuild towards new_hp can only exhaust the fuel if three nested
+   temporary maps fit under the maximum hashpower *)
+Theorem cuckoo_expand_simple_fuel_room auto mode t new_hp :
+  nothrow c = false -> good t -> limC c (mhp t) ->
+  snd (cuckoo_expand_simple c hash auto mode t new_hp) = inl EOutOfFuel -> new_hp + 2 <= mhp t.
+Proof.
+  intros Hnt G Hl E.
+  assert (H := proj2 (fuel_room_all Hnt 2) auto mode t new_hp G Hl E). cbn in H. lia.
+Qed.
+
+(* ... hence, for every element type: *)
+Theorem cuckoo_expand_simple_no_fuel_near_max auto mode t new_hp :
+  good t -> limC c (mhp t) -> mhp t < new_hp + 2 ->
+  snd (cuckoo_expand_simple c hash auto mode t new_hp) <> inl EOutOfFuel.
+Proof.
+  intros G Hl Hnear E. destruct (nothrow c) eqn:Hnt.
+  - exact (cuckoo_expand_simple_no_fuel auto mode t new_hp Hnt G Hl E).
+  - assert (H := cuckoo_expand_simple_fuel_room auto mode t new_hp Hnt G Hl E). lia.
+Qed.
+
+Theorem cuckoo_fast_double_fuel_room mode t :
+  nothrow c = false -> good t -> limC c (mhp t) ->
+  snd (cuckoo_fast_double c hash mode t (bhp (cur t))) = inl EOutOfFuel -> bhp (cur t) + 3 <= mhp t.
+Proof.
+  intros Hnt G Hl E. unfold cuckoo_fast_double, resize_fuel in E.
+  rewrite (fast_double_f_S_throw c hash 5 true mode t _ Hnt) in E.
+  assert (H := proj1 (fuel_room_all Hnt 2) true mode t (bhp (cur t) + 1) G Hl E). cbn in H. lia.
+Qed.
+
+(* the insert family of a throwing type (limits capped as for the rebuild, Refine.v) *)
+Theorem uprase_gen_fuel_room mode t k v g :
+  nothrow c = false -> good t -> limC c (mhp t) ->
+  snd (uprase_gen c hash mode t k v g) = inl EOutOfFuel -> bhp (cur t) + 3 <= mhp t.
+Proof.
+  intros Hnt G Hl E. assert (St : settled t) by (destruct G as [St _]; exact St).
+  destruct (uprase_gen c hash mode t k v g) as [t' r] eqn:Eu. cbn [snd] in E. subst r.
+  apply (uprase_gen_exn _ _ _ _ _ _ _ St) in Eu.
+  assert (Hf : 60 <= N.of_nat insert_loop_fuel + bhp (cur t)) by (unfold insert_loop_fuel; lia).
+  destruct (insert_loop_fuel_origin (limC c) _ mode (fd_ok_capped c hash Hc mode)
+              insert_loop_fuel t k G Hl Hf t' Eu) as [He|[t1 [Ev H1]]].
+  - exfalso. destruct Hl as [_ H58]. apply (esc_capped c hash t); [lia|exact He].
+  - assert (G1 := evolves_good c hash _ _ Ev).
+    destruct Ev as [_ [_ [[_ [_ [Em _]]] Hb]]].
+    assert (Hl1 : limC c (mhp t1)) by (rewrite Em; exact Hl).
+    assert (H := cuckoo_fast_double_fuel_room mode t1 Hnt G1 Hl1 H1). rewrite Em in H. lia.
+Qed.
+
+Corollary uprase_gen_no_fuel_near_max mode t k v g :
+  good t -> limC c (mhp t) -> mhp t < bhp (cur t) + 3 ->
+  snd (uprase_gen c hash mode t k v g) <> inl EOutOfFuel.
+Proof.
+  intros G Hl Hnear E. destruct (nothrow c) eqn:Hnt.
+  - assert (Him : immediate c mode t) by (right; destruct Hl as [H _]; exact H).
+    apply (uprase_gen_no_fuel_capped mode t k v g Hnt G Him); [destruct Hl as [_ H]; lia|exact E].
+  - assert (H := uprase_gen_fuel_room mode t k v g Hnt G Hl E). lia.
+Qed.
+
 End NoFuel.
+
+(* ================================================================== non-vacuity *)
+Module NoFuelExample.
+Definition c2 : config := {| spb := 1; lbits := 16; simple := true; nothrow := true; destructive := false |}.
+
+Lemma c2_ok : cfg_ok c2.
+Proof. constructor; cbn; lia. Qed.
+
+(* an insertion that returns normally keeps a capped table good *)
+Lemma ins_keeps_good_gen c h mode t k v x :
+  cfg_ok c -> nothrow c = true -> good c h t -> immediate c mode t -> mhp t <= 59 ->
+  snd (uprase_gen c h mode t k v (fun _ _ => None)) = inr x ->
+  good c h (fst (uprase_gen c h mode t k v (fun _ _ => None))) /\
+  mhp (fst (uprase_gen c h mode t k v (fun _ _ => None))) = mhp t.
+Proof.
+  intros Hc Hnt G Him Hcap E.
+  destruct (uprase_gen c h mode t k v (fun _ _ => None)) as [t' r] eqn:Eu. cbn [fst snd] in *. subst r.
+  destruct (uprase_gen_good c h Hc mode t k v _ Hnt G Him t' _ Eu) as [Hin Hout].
+  assert (St : settled c h t) by (destruct G as [St _]; exact St).
+  destruct (key_in_dec c h t k (se_arr _ _ _ St)) as [Hk|Hk].
+  - apply key_in_holds in Hk. destruct Hk as [v0 Hv0].
+    destruct (Hin v0 Hv0) as [b [s [_ [G' [[_ [_ [Em _]]] _]]]]]. split; assumption.
+  - destruct (Hout Hk) as [He|[[e [He _]]|[b [s [_ [G' [[_ [_ [Em _]]] _]]]]]]].
+    + exfalso. apply (esc_capped c h t); [exact Hcap|exact He].
+    + discriminate.
+    + split; assumption.
+Qed.
+
+Lemma ins_keeps_good h t k v x :
+  good c2 h t -> mhp t <= 16 ->
+  snd (uprase_gen c2 h false t k v (fun _ _ => None)) = inr x ->
+  good c2 h (fst (uprase_gen c2 h false t k v (fun _ _ => None))) /\
+  mhp (fst (uprase_gen c2 h false t k v (fun _ _ => None))) = mhp t.
+Proof.
+  intros G Hcap E.
+  apply (ins_keeps_good_gen c2 h false t k v x c2_ok eq_refl G); [right; exact Hcap|lia|exact E].
+Qed.
+
+(* ---- N1/N2: a displacement that succeeds at the first attempt.
+   Identity hash, 4 buckets of 1 slot; keys 0 and 1 sit in buckets 0 and 1; key 4 has candidate
+   buckets 0 and 1, both full: the BFS finds the path bucket 1 -> bucket 3 (depth 1). *)
+Definition hid (k : N) : N := k.
+Definition ins (t : table) (k : N) := uprase_gen c2 hid false t k 7%Z (fun _ _ => None).
+Definition t0 := set_mhp (new_table c2 4) 10.
+Definition t2 := fst (ins (fst (ins t0 0)) 1).
+
+Lemma t0_good : good c2 hid t0.
+Proof.
+  apply (good_set_mhp c2 hid).
+  - apply (good_new_table c2 hid c2_ok). vm_compute. reflexivity.
+  - vm_compute. discriminate.
+Qed.
+
+Lemma t2_good : good c2 hid t2.
+Proof.
+  assert (H1 := ins_keeps_good hid t0 0 7%Z (true, [], (0, 0)) t0_good).
+  destruct H1 as [G1 M1]; [vm_compute; discriminate|vm_compute; reflexivity|].
+  assert (H2 := ins_keeps_good hid _ 1 7%Z (true, [], (1, 0)) G1).
+  destruct H2 as [G2 _]; [rewrite M1; vm_compute; discriminate|vm_compute; reflexivity|].
+  exact G2.
+Qed.
+
+Example run_cuckoo_displaces :
+  settled c2 hid t2 /\
+  (i1_of hid (bhp (cur t2)) 4, i2_of hid (bhp (cur t2)) 4) = (0, 1) /\
+  snd (cuckoopath_search c2 hid false t2 2 0 1) =
+    Some ([{| crbucket := 1; crslot := 0; crhash := 1; crpartial := 1 |};
+           {| crbucket := 3; crslot := 0; crhash := 0; crpartial := 0 |}], 1) /\
+  snd (run_cuckoo c2 hid false t2 0 1) = RC_ok 1 0 /\
+  run_cuckoo_loop c2 hid false t2 2 0 1 1 = run_cuckoo c2 hid false t2 0 1 /\
+  snd (cuckoo_insert c2 hid false t2 4 0 1) = CI_pos {| pindex := 1; pslot := 0; pstatus := St_ok |}.
+Proof.
+  split; [destruct t2_good as [St _]; exact St|]. vm_compute. repeat split.
+Qed.
+
+(* ---- N3: a failing insert that doubles the table four times and stops at the maximum
+   hashpower, having used 5 of the 70 units of loop fuel (constant hash: the third key never fits) *)
+Definition h0 (_ : N) : N := 0.
+Definition ins0 (t : table) (k : N) := uprase_gen c2 h0 false t k 7%Z (fun _ _ => None).
+Definition u0 := set_mlf (set_mhp (new_table c2 2) 5) 0 1.
+Definition u2 := fst (ins0 (fst (ins0 u0 1)) 2).
+
+Lemma u0_good : good c2 h0 u0.
+Proof.
+  apply (good_set_mlf c2 h0). apply (good_set_mhp c2 h0).
+  - apply (good_new_table c2 h0 c2_ok). vm_compute. reflexivity.
+  - vm_compute. discriminate.
+Qed.
+
+Lemma u2_good : good c2 h0 u2 /\ mhp u2 = 5.
+Proof.
+  assert (H1 := ins_keeps_good h0 u0 1 7%Z (true, [], (0, 0)) u0_good).
+  destruct H1 as [G1 M1]; [vm_compute; discriminate|vm_compute; reflexivity|].
+  assert (H2 := ins_keeps_good h0 _ 2 7%Z (true, [], (1, 0)) G1).
+  destruct H2 as [G2 M2]; [rewrite M1; vm_compute; discriminate|vm_compute; reflexivity|].
+  split; [exact G2|]. unfold u2, ins0. rewrite M2, M1. reflexivity.
+Qed.
+
+Example insert_doubles_without_fuel :
+  nothrow c2 = true /\ good c2 h0 u2 /\ immediate c2 false u2 /\ mhp u2 <= 59 /\
+  bhp (cur u2) = 1 /\
+  snd (ins0 u2 3) = inl EMaxHashpower /\ bhp (cur (fst (ins0 u2 3))) = 5.
+Proof.
+  destruct u2_good as [G M].
+  split; [reflexivity|]. split; [exact G|]. split; [right; rewrite M; vm_compute; discriminate|].
+  split; [rewrite M; vm_compute; discriminate|]. vm_compute. repeat split.
+Qed.
+
+(* ---- M/N4: fuel that is too small is reported, enough fuel gives the model's answer.
+   Shrinking u2 (2 elements, constant hash) to one bucket of one slot: the temporary map needs
+   one automatic doubling.  With resize fuel 1 that doubling is out of fuel; with fuel 2 (and
+   every larger fuel, by expand_simple_f_mono) the rehash succeeds at hashpower 1. *)
+Example rehash_fuel :
+  snd (expand_simple_f c2 h0 1 false false u2 0) = inl EOutOfFuel /\
+  snd (expand_simple_f c2 h0 2 false false u2 0) = inr St_ok /\
+  cuckoo_expand_simple c2 h0 false false u2 0 = expand_simple_f c2 h0 2 false false u2 0 /\
+  snd (cuckoo_rehash c2 h0 false u2 0) = inr true.
+Proof.
+  split; [vm_compute; reflexivity|]. split; [vm_compute; reflexivity|]. split.
+  - apply (cuckoo_expand_simple_stable c2 h0 2); [unfold resize_fuel; lia|vm_compute; discriminate].
+  - vm_compute. reflexivity.
+Qed.
+
+(* ---- N1 with deferred migration: 2 lock stripes; a table of 4 buckets is doubled in normal
+   mode, which defers the whole migration (both stripes un-migrated, the new array empty).
+   run_cuckoo on that table migrates both stripes while it searches, finds the path
+   bucket 0 -> bucket 5 and executes it at the first attempt. *)
+Definition c3 : config := {| spb := 1; lbits := 1; simple := true; nothrow := true; destructive := false |}.
+
+Lemma c3_ok : cfg_ok c3.
+Proof. constructor; cbn; lia. Qed.
+
+Definition insL (t : table) (k : N) := uprase_gen c3 hid true t k 7%Z (fun _ _ => None).
+Definition v0 := set_mhp (new_table c3 4) 10.
+Definition v2 := fst (insL (fst (insL v0 0)) 1).
+Definition w := fast_double_body c3 hid false v2 3.
+
+Lemma v2_good : good c3 hid v2.
+Proof.
+  assert (G0 : good c3 hid v0).
+  { apply (good_set_mhp c3 hid).
+    - apply (good_new_table c3 hid c3_ok). vm_compute. reflexivity.
+    - vm_compute. discriminate. }
+  assert (H1 := ins_keeps_good_gen c3 hid true v0 0 7%Z (true, [], (0, 0)) c3_ok eq_refl G0).
+  destruct H1 as [G1 M1]; [left; reflexivity|vm_compute; discriminate|vm_compute; reflexivity|].
+  assert (H2 := ins_keeps_good_gen c3 hid true _ 1 7%Z (true, [], (1, 0)) c3_ok eq_refl G1).
+  destruct H2 as [G2 _]; [left; reflexivity|rewrite M1; vm_compute; discriminate|vm_compute; reflexivity|].
+  exact G2.
+Qed.
+
+Example lazy_run_cuckoo_displaces :
+  wf c3 hid w /\
+  (mig (lock_at w 0), mig (lock_at w 1), nrem w) = (false, false, 2) /\
+  snd (cuckoopath_search c3 hid false w 3 0 1) =
+    Some ([{| crbucket := 0; crslot := 0; crhash := 0; crpartial := 0 |};
+           {| crbucket := 5; crslot := 0; crhash := 0; crpartial := 0 |}], 1) /\
+  snd (run_cuckoo c3 hid false w 0 1) = RC_ok 0 0 /\
+  (let w' := fst (run_cuckoo c3 hid false w 0 1) in (mig (lock_at w' 0), mig (lock_at w' 1), nrem w'))
+    = (true, true, 0).
+Proof.
+  split; [|vm_compute; repeat split].
+  destruct v2_good as [St [Ct [_ [Hl _]]]].
+  assert (E : bhp (cur v2) = 2) by (vm_compute; reflexivity).
+  destruct (fast_double_body_deferred c3 hid c3_ok v2 St Ct) as [W _].
+  - rewrite E. vm_compute. reflexivity.
+  - rewrite E. vm_compute. discriminate.
+  - exact Hl.
+  - cbv zeta in W. rewrite E in W. exact W.
+Qed.
+
+End NoFuelExample.
